@@ -34,6 +34,46 @@ type MutCase struct {
 }
 
 var c07Mut *eng.Kind[MutCase]
+
+// OrderCase: programs run one after the other on one runner, each with the expected outcome ("error" or
+// the value as show prints it): the callee of a call is read before its arguments are evaluated, and
+// what stands to the right of a failure is never evaluated.
+type OrderCase struct {
+	Progs []string `json:"progs"`
+	Want  []string `json:"want"`
+}
+
+var c07Order *eng.Kind[OrderCase]
+
+func judgeOrder(c OrderCase) *eng.Fail {
+	var log []string
+	mk := func(tag string) map[string]interface{} {
+		return map[string]interface{}{"f": func(xs ...interface{}) (string, error) { log = append(log, tag); return tag, nil }, "tag": tag}
+	}
+	data := map[string]interface{}{"a": mk("a"), "b": mk("b"), "n": nil, "one": 1.0,
+		"rec": func(xs ...interface{}) (float64, error) { log = append(log, "rec"); return float64(len(xs)), nil }}
+	r := formula.NewRunner()
+	r.SetThis(data)
+	for i, src := range c.Progs {
+		p := safeParse([]byte(src))
+		if p.panicked || p.err != nil {
+			return eng.F("C07/parse", "%s: %v %s", src, p.err, p.panicMsg)
+		}
+		o := safeResolve(r, bg, p.src.Expression)
+		if o.panicked {
+			return eng.F("C07/panic", "%s: %s", src, o.panicMsg)
+		}
+		got := "error"
+		if o.err == nil {
+			got = show(o.val)
+		}
+		if got != c.Want[i] {
+			return eng.F("C07/evaluation-order", "program %d of %q on one runner: %s = %s (%v), expected %s (host calls so far: %v); operands, callee and arguments are evaluated left to right", i+1, c.Progs, src, got, o.err, c.Want[i], log)
+		}
+	}
+	outcome(strings.Join(c.Want, ";"))
+	return nil
+}
 var c07Prog *eng.Kind[ProgCase]
 var c07Target *eng.Kind[TargetCase]
 
@@ -49,6 +89,7 @@ func init() {
 	c07Prog = eng.NewKind(c, "programs", judgeProg)
 	c07Target = eng.NewKind(c, "targets", judgeTarget)
 	c07Mut = eng.NewKind(c, "operand-mutation", judgeMut)
+	c07Order = eng.NewKind(c, "evaluation-order", judgeOrder)
 }
 
 var c07Fns = []string{"abs(%s)", "ceil(%s)", "floor(%s)", "round(%s)", "roundBank(%s)", "roundCash(%s, 2)", "toInt(%s)", "toFloat(%s)", "toString(%s)", "finite(%s)",
@@ -792,6 +833,31 @@ func runC07(w *eng.W) {
 				w.Sample("operand-mutation", c)
 				c07Mut.Do(w, c)
 			}
+		}
+	}
+	// the callee is part of the left-to-right order: it is read before the arguments are evaluated, and
+	// arguments right of a failing callee or argument are not evaluated at all
+	if w.Take() {
+		for _, oc := range []OrderCase{
+			{[]string{"$f = abs, $f($f = 0 - 3)"}, []string{"f64:3"}},
+			{[]string{"$f = abs, $f(($f = 7, 0 - 3))", "$f"}, []string{"f64:3", "f64:7"}},
+			{[]string{"$m = a, $m.f(($m = b, 1))", "$m.tag"}, []string{"str:\"a\"", "str:\"b\""}},
+			{[]string{"$m = a, [$m.f(), ($m = b, $m.f()), $m.f()]"}, []string{"[str:\"a\",str:\"b\",str:\"b\"]"}},
+			{[]string{"$m = a, $m.f($m = b, $m.tag) + $m.tag"}, []string{"str:\"ab\""}},
+			{[]string{"n!.f($z = 1)", "$z"}, []string{"error", "null"}},
+			{[]string{"n!.k.f($z = 1, $y = 2)", "[$z, $y]"}, []string{"error", "[null,null]"}},
+			{[]string{"rec($z = 1, n!.k, $y = 2)", "[$z, $y]"}, []string{"error", "[num:1,null]"}},
+			{[]string{"[$z = 1, one(2), $y = 2]", "[$z, $y]"}, []string{"error", "[num:1,null]"}},
+			// (whether a callee that is read without error but is not a function fails before or after its
+			// arguments are evaluated is open: the value is read first, the call attempted last)
+			{[]string{"$g = rec, $g($g = 5, $g) + $g"}, []string{"f64:7"}},
+		} {
+			w.State(int64(len(oc.Progs)))
+			w.Trans(int64(len(oc.Progs)))
+			w.Trace(1)
+			w.Note("leg:evaluation-order", 1)
+			w.Sample("evaluation-order", oc)
+			c07Order.Do(w, oc)
 		}
 	}
 	// forbidden targets
